@@ -104,7 +104,7 @@ func RunProgOn(im *Impl, pc *ProgCase) (results []StepResult, firstDiff int, inc
 	firstDiff = -1
 	dq := pc.DQ
 	if dq == "" {
-		dq = "codes"
+		dq = DefaultDQ()
 	}
 	if pc.DQ != "" {
 		if o := im.Exec(":- set_prolog_flag(double_quotes, " + pc.DQ + ").\n"); o.Status != "ok" {
@@ -438,4 +438,23 @@ func normTerm(t ref.Term, norm string) ref.Term {
 		args[i] = normTerm(a, norm)
 	}
 	return &ref.Cmp{F: c.F, Args: args}
+}
+
+var defaultDQ string
+
+// DefaultDQ is the implementation's initial double_quotes flag (implementation defined), read once.
+func DefaultDQ() string {
+	if defaultDQ != "" {
+		return defaultDQ
+	}
+	defaultDQ = "codes"
+	im := NewImpl()
+	o, ans := im.QueryTerms("current_prolog_flag(double_quotes, X).", []string{"X"}, 1)
+	if len(ans) == 1 {
+		if a, ok := ans[0][0].(ref.Atom); ok {
+			defaultDQ = string(a)
+		}
+	}
+	_ = o
+	return defaultDQ
 }
